@@ -581,6 +581,9 @@ impl Prop for C06 {
             "an Err from from_gds on a valid library satisfies the statement (counted; the run is inconclusive if fewer than half of the valid libraries import)".into(),
         ]
     }
+    fn miri_gen(&self) -> Option<&'static str> {
+        Some("valid")
+    }
     fn plan(&self, tier: Tier) -> Vec<GenSpec> {
         vec![
             GenSpec::random("valid", tier.pick(20_000, 400_000)),
